@@ -24,6 +24,7 @@ def main():
     seed = int(os.environ.get("VERIF_SEED", "0") or 0)
     pid = a.pid.upper()
     ctx = vlib.Ctx(pid, a.tier, seed)
+    ctx.is_replay = bool(a.replay)
     mod = importlib.import_module("props." + pid.lower())
     try:
         if a.replay:
